@@ -27,7 +27,9 @@ RULE = ("histories of offer(key, version, declared dependencies) / delete(key) /
 ASSUMPTIONS = [
     "time.monotonic() is strictly increasing (the code compares event_time <= prepare time; two equal readings "
     "could drop a needed event - latent risk, hypothesis of every theorem)",
-    "preparers are atomic (no await that suspends) and deterministic in the cached spec; they do not raise",
+    "preparers are atomic (no await that suspends), do not raise, and the dependencies they declare are a function "
+    "of the spec (a re-preparation from the cached spec declares what the offer declared)",
+    "delete_from_cache is called without a version (the version-guarded no-op path is C15's)",
     "declared dependencies are acyclic (a resource only depends on resources with a larger index), so "
     "SubscriptionCycle is never raised",
     "asyncio (CPython 3.13): FIFO ready queue; create_task / future wake-up / cancel / done-callbacks each take "
@@ -405,6 +407,9 @@ def check_history(ctx: Ctx, hist, kind, cases, terms):
     ctx.note_case(hist, nontrivial=(r.reprepares > 0 or deletes_watched) and nops >= 3)
     if r.idle_after is not None:
         ctx.count(f"idle_after:{r.idle_after}")
+        if r.idle_after > hist["n"] + 2:      # C16_yield_progress_N says n+2 turns suffice
+            ctx.count("idle_after_exceeds_n_plus_2")
+            ctx.mismatch("progress bound of C16_yield_progress_N (idle within n+2 turns)", hist, r.idle_after)
     if r.problems:
         seen = set()
         for sig, detail in r.problems:
